@@ -22,7 +22,7 @@ EntryPaths(es, p) == IF es = <<>> THEN {} ELSE TablePaths(Head(es).val, Append(p
 Op(op, path, key, v, i) == [op |-> op, path |-> path, key |-> key, v |-> v, i |-> i]
 OpsAt(t, p) ==
   LET tb == GetAt(t, p) IN
-  {Op("insert", p, ZZ, Leaf(9), 0), Op("sort_values", p, <<>>, Leaf(0), 0), Op("fmt", p, <<>>, Leaf(0), 0), Op("clear", p, <<>>, Leaf(0), 0)}
+  {Op("insert", p, ZZ, Leaf(9), 0), Op("insert", p, ZZ, NewTable(9), 0), Op("sort_values", p, <<>>, Leaf(0), 0), Op("fmt", p, <<>>, Leaf(0), 0), Op("clear", p, <<>>, Leaf(0), 0)}
   \cup UNION {
         {Op("insert", p, tb.v[x].key, Leaf(9), 0), Op("remove", p, tb.v[x].key, Leaf(0), 0)}
         \cup (IF tb.v[x].val.k = "t" THEN {Op("to_inline", p, tb.v[x].key, Leaf(0), 0), Op("to_table", p, tb.v[x].key, Leaf(0), 0)} ELSE {})
